@@ -63,11 +63,12 @@ def obs_val(x):
     if isinstance(x, int):
         return x
     if isinstance(x, dict) and "f" in x:
-        f = float(x["f"])
-        if f != f or f in (float("inf"), float("-inf")):
-            return ("bad", x["f"])
-        return Fraction(f)
-    return ("bad", json.dumps(x))
+        x = float(x["f"])
+    if isinstance(x, float):
+        if x != x or x in (float("inf"), float("-inf")):
+            return ("bad", repr(x))
+        return Fraction(x)
+    return ("bad", repr(x))
 
 
 def same(exp, obs):
@@ -120,7 +121,26 @@ def compile_batch(exprs, dialect):
 
 
 def run_queries(setup, sqls):
-    """execute each statement on a fresh-per-shard in-memory table; returns list of row lists or {'exec_err'}"""
+    """execute each statement on an in-memory SQLite (python's sqlite3: it has the math functions POW / FLOOR the
+    templates use, which the harness' bundled SQLite lacks); returns [{'cols','rows'} | {'exec_err'}]"""
+    import sqlite3
+    conn = sqlite3.connect(":memory:")
+    for st in setup:
+        conn.execute(st)
+    out = []
+    for q in sqls:
+        try:
+            cur = conn.execute(q)
+            rows = cur.fetchall()
+            out.append({"cols": [d[0] for d in cur.description], "rows": rows})
+        except sqlite3.Error as ex:
+            out.append({"exec_err": str(ex)})
+    conn.close()
+    return out
+
+
+def run_queries_harness(setup, sqls):
+    """the same through the harness (rusqlite, bundled SQLite): second engine, thorough tier"""
     if not sqls:
         return []
     n = len(sqls)
@@ -145,10 +165,13 @@ def run():
     G.set_tables(tinfo["pratt"] if "error" not in tinfo["pratt"] else None, tinfo["doc"] if "error" not in tinfo["doc"] else None)
     pr = ck.prove()
     from . import c02_streams as S
-    model_ok = S.models_built(ck)
-    S.stream_parse(ck, model_ok)
-    S.stream_sql_and_e2e(ck, model_ok)
-    S.stream_directed(ck)
+    import time
+    tm = {}
+    t0 = time.time(); model_ok = S.models_built(ck); tm["models"] = round(time.time() - t0, 1)
+    t0 = time.time(); S.stream_parse(ck, model_ok); tm["parse"] = round(time.time() - t0, 1)
+    t0 = time.time(); S.stream_sql_and_e2e(ck, model_ok, tm); tm["sql+e2e"] = round(time.time() - t0, 1)
+    t0 = time.time(); S.stream_directed(ck); tm["directed"] = round(time.time() - t0, 1)
+    ck.coverage["seconds_by_phase"] = tm
     ck.proof_broken_violation(found_input=any(not ni for _, _, ni in ck.violations))
     ck.assumptions += [
         "value domain {NULL,-7,-2,-1,0,1,2,7,0.5,-2.5}^3 (all 1000 rows for the depth-2 triples, a seeded 250-row sample for random deeper trees); rows with an intermediate value that is not exactly representable in binary64 are not compared",
